@@ -236,3 +236,44 @@ Fixpoint cut_rec (maxlen : Q) (t : utree) (base : nat) (up : upctx) (st : cstate
 (** Tree.CutEdgesMaxLength(maxlen), each bag as TipBag.Tips() lists it *)
 Definition cut (maxlen : Q) (t : utree) : list (list string) :=
   cbags (cut_rec maxlen t 0 None (mkC [] [])).
+
+(** * homonymous tips *)
+(** Two tips with the same name are two nodes: pathLengths addresses columns through the node
+    ids given by the position in the sorted slice, and sort.Slice on at most 12 elements is an
+    insertion sort (stable: homonyms stay in the order of Tree.Tips()).  The model reduces this
+    case to distinct names: the k-th tip named n (in Tips() order) is renamed n\000k' (k' the
+    character of code 48+k), which keeps the name order, and the matrix is that of the renamed
+    tree.  Only for trees of at most 12 tips (pdqsort is not stable beyond). *)
+Definition count_of (n : string) (seen : list string) : nat := length (filter (String.eqb n) seen).
+
+Definition tag (n : string) (k : nat) : string :=
+  (n ++ String (Ascii.ascii_of_nat 0) (String (Ascii.ascii_of_nat (48 + k)) EmptyString))%string.
+
+Fixpoint relabel (t : utree) (seen : list string) : utree * list string :=
+  match t with
+  | UNode n c sl =>
+    let istip := Nat.eqb (length sl) 1 in
+    let n' := if istip then tag n (count_of n seen) else n in
+    let seen1 := if istip then n :: seen else seen in
+    let r :=
+        (fix go (l : list slot) (seen : list string) : list slot * list string :=
+           match l with
+           | [] => ([], seen)
+           | None :: r => let p := go r seen in (None :: fst p, snd p)
+           | Some (e, ch) :: r =>
+             let p1 := relabel ch seen in
+             let p2 := go r (snd p1) in
+             (Some (e, fst p1) :: fst p2, snd p2)
+           end) sl seen1 in
+    (UNode n' c (fst r), snd r)
+  end.
+
+Definition relabel_tips (t : utree) : utree := fst (relabel t []).
+
+(** the same renaming on a list of names in which homonyms are in Tips() order *)
+Definition relabel_names (l : list string) : list string :=
+  (fix go (l seen : list string) : list string :=
+     match l with
+     | [] => []
+     | x :: r => tag x (count_of x seen) :: go r (x :: seen)
+     end) l [].
